@@ -144,7 +144,9 @@ theorem processCore_le (fuel : Nat) (o1 : Obj) (inNull outNull : Bool) (ilen ole
     idone ≤ ilen ∧ odone ≤ olen := by
   unfold processCore at h
   split at h
-  · rw [pure_ok] at h; obtain ⟨h1, -⟩ := h; cases h1; exact ⟨Nat.le_refl _, Nat.zero_le _⟩
+  · rw [bind_ok] at h
+    obtain ⟨_, c1, _, h⟩ := h
+    rw [pure_ok] at h; obtain ⟨h1, -⟩ := h; cases h1; exact ⟨Nat.le_refl _, Nat.zero_le _⟩
   · simp only [bind_ok] at h
     obtain ⟨⟨o1', i1⟩, c1, hi, h⟩ := h
     obtain ⟨⟨o2, d2⟩, c2, ho, h⟩ := h
